@@ -463,10 +463,11 @@ fn run_pipeline(sink: &mut Sink, rng: &mut Rng, args: &Args, ndicts: usize, ntex
                             continue;
                         }
                         for e in dict.lexicon().lookup(bytes, *byte_off) {
-                            if e.end < bytes.len() && !inp.can_bow(e.end) {
+                            let end = e.end as usize; // whatever integer type the entry carries
+                            if end < bytes.len() && !inp.can_bow(end) {
                                 continue;
                             }
-                            expected.push((ch_off, inp.ch_idx(e.end), e.word_id.as_raw()));
+                            expected.push((ch_off, inp.ch_idx(end), e.word_id.as_raw()));
                         }
                         // the same from the SOURCE rows (not through the index): every row with a non-negative left id whose
                         // surface stands at this position is a candidate, whatever its ids are
